@@ -223,7 +223,7 @@ func (x *runner) violate(c *cmd, kind, msg string) {
 		sig += "[" + v + "]"
 	}
 	sig += ":" + kind
-	if strings.HasPrefix(kind, "read:") {
+	if strings.HasPrefix(kind, "read:") || strings.HasPrefix(kind, "lock-table:") {
 		sig = x.d.level() + ":" + kind // a read probe: the answer is wrong whatever command came before
 	}
 	tr := append([]string(nil), x.trace...)
@@ -242,6 +242,7 @@ func (x *runner) observe() []dKey {
 
 // defined: the preconditions of the statement, and the cases it leaves to neither side.
 func (x *runner) defined(c *cmd) bool {
+	x.prepare(c)
 	if c.txn >= 0 && x.retired[c.txn] {
 		return false
 	}
@@ -267,7 +268,8 @@ func (x *runner) defined(c *cmd) bool {
 			}
 		}
 	case opResolve:
-		if !x.m.resolveDefined(map[uint64]uint64{c.sts: c.cts}) {
+		rs, re := c.effRange()
+		if !x.m.resolveDefined(map[uint64]uint64{c.sts: c.cts}, rs, re) {
 			return false
 		}
 	case opBatchResolve:
@@ -278,7 +280,8 @@ func (x *runner) defined(c *cmd) bool {
 				}
 			}
 		}
-		if !x.m.resolveDefined(c.infos) {
+		rs, re := c.effRange()
+		if !x.m.resolveDefined(c.infos, rs, re) {
 			return false
 		}
 	}
@@ -314,8 +317,95 @@ func hasNil(as []alt) int {
 	return -1
 }
 
+// prepare: a region-scoped command is bound to a region of the driver (its raw range becomes the command's range;
+// only a ScanLock request can carry a narrower start/end of its own).
+func (x *runner) prepare(c *cmd) {
+	if !c.regionScoped() {
+		return
+	}
+	if n := x.d.nregions(); n > 0 {
+		c.region %= n
+		c.rstart, c.rend = x.d.rrange(c.region)
+		if c.op != opScanLock {
+			c.start, c.end = "", ""
+		}
+	} else {
+		c.rstart, c.rend = "", ""
+	}
+}
+
+// split: a key-carrying command whose keys lie in several regions becomes one command per region (what a
+// client does); each part is a command of its own for the model as well.
+func (x *runner) split(c *cmd) []*cmd {
+	if x.d.nregions() < 2 || len(c.keys) < 2 {
+		return nil
+	}
+	switch c.op {
+	case opPrewrite, opPLock, opPRollback, opCommit, opRollback:
+	default:
+		return nil
+	}
+	var order []int
+	parts := map[int]*cmd{}
+	for i, k := range c.keys {
+		rg := x.d.regionOf(k)
+		p := parts[rg]
+		if p == nil {
+			cp := *c
+			cp.keys, cp.mops, cp.acts, cp.vals = nil, nil, nil, nil
+			p = &cp
+			parts[rg] = p
+			order = append(order, rg)
+		}
+		p.keys = append(p.keys, k)
+		if c.op == opPrewrite {
+			p.mops = append(p.mops, c.mops[i])
+			p.vals = append(p.vals, c.vals[i])
+			if len(c.acts) > 0 {
+				p.acts = append(p.acts, c.acts[i])
+			}
+		}
+	}
+	if len(order) < 2 {
+		return nil
+	}
+	var out []*cmd
+	for _, rg := range order {
+		p := parts[rg]
+		if c.op == opPLock && c.minc != 0 && !(len(p.keys) == 1 && p.keys[0] == c.primary) {
+			p.minc = 0
+		}
+		out = append(out, p)
+	}
+	return out
+}
+
+// run: step (+ the repetition clause) for a command, region by region if its keys span regions.
+func (x *runner) run(c *cmd, light, probe, repeat bool) bool {
+	parts := x.split(c)
+	if parts == nil {
+		parts = []*cmd{c}
+	}
+	for i, p := range parts {
+		last := i == len(parts)-1
+		if len(parts) > 1 && !x.defined(p) {
+			continue // e.g. the txn already ended on this region's keys
+		}
+		if !x.step(p, light, probe && last) {
+			return false
+		}
+		if repeat && mutating(p.op) && x.lastOK {
+			if !x.repeatCheck(p) {
+				return false
+			}
+		}
+	}
+	return true
+}
+
 // step executes one command on the store and the model and compares. light: no dump / probes.
 func (x *runner) step(c *cmd, light, probe bool) bool {
+	x.prepare(c)
 	if x.failed || !x.defined(c) {
 		return false
 	}
@@ -345,7 +435,7 @@ func (x *runner) step(c *cmd, light, probe bool) bool {
 	var rolledBack []txnKey // (txn,key) pairs this command must have left a rollback marker for
 	switch c.op {
 	case opPrewrite:
-		a := prewriteArgs{sts: c.sts, primary: c.primary, ttl: c.ttl, fts: c.fts, minc: c.minc}
+		a := prewriteArgs{sts: c.sts, primary: c.primary, ttl: c.ttl, fts: c.fts, minc: c.minc, txnSize: uint64(len(c.keys))}
 		alts := make([][]alt, len(c.keys))
 		for i, k := range c.keys {
 			act := kvrpcpb.PrewriteRequest_SKIP_PESSIMISTIC_CHECK
@@ -476,7 +566,13 @@ func (x *runner) step(c *cmd, light, probe bool) bool {
 			x.violate(c, "class:want=nil,got="+e.String(), "pessimistic rollback returned an error")
 			return false
 		}
-		x.m.pessimisticRollback(c.keys, c.sts, c.fts)
+		if len(c.keys) == 0 {
+			rs, re := c.effRange()
+			x.m.pessimisticRollbackRange(rs, re, c.sts, c.fts)
+			x.counters["prollback_no_keys"]++
+		} else {
+			x.m.pessimisticRollback(c.keys, c.sts, c.fts)
+		}
 	case opCommit, opRollback, opCleanup:
 		var applies []func()
 		want := alt{c: cNil}
@@ -565,26 +661,26 @@ func (x *runner) step(c *cmd, light, probe bool) bool {
 			x.violate(c, "class:want=nil,got="+e.String(), "resolve lock returned an error")
 			return false
 		}
+		rs, re := c.effRange()
 		for k, ts := range preLocks {
-			if cts, ok := infos[ts]; ok && cts == 0 {
+			if cts, ok := infos[ts]; ok && cts == 0 && inRange(k, rs, re) {
 				rolledBack = append(rolledBack, txnKey{ts, k})
 			}
 		}
-		x.m.resolve(infos)
+		x.m.resolve(infos, rs, re)
 	case opScanLock:
 		if e, _ := res.firstErr(); e != cNil {
 			x.violate(c, "class:want=nil,got="+e.String(), "scan lock returned an error")
 			return false
 		}
-		want := x.m.scanLock(c.start, c.end, c.ts)
-		if !reflect.DeepEqual(want, res.locks) && (len(want) > 0 || len(res.locks) > 0) {
-			x.violate(c, "locks", fmt.Sprintf("returned %v, the reference model has %v", res.locks, want))
+		if !x.checkScanLock(c, c, res, x.m, "locks") {
 			return false
 		}
 	case opGC:
 		blocked := false
+		gs, ge := c.effRange()
 		for _, k := range x.m.keys {
-			if l := x.m.k[k].lock; l != nil && l.ts <= c.sp {
+			if l := x.m.k[k].lock; l != nil && l.ts <= c.sp && inRange(k, gs, ge) {
 				blocked = true
 			}
 		}
@@ -752,6 +848,11 @@ func (x *runner) compareDump(c *cmd, d []dKey) bool {
 			}
 		}
 	}
+	// the full lock table as the ScanLock RPC of every region reports it (the records above agree with the model, so
+	// a difference here is ScanLock's)
+	if x.d.nregions() > 0 && !x.lockTable(c, ^uint64(0), x.m, "lock-table") {
+		return false
+	}
 	return true
 }
 
@@ -766,6 +867,13 @@ func (x *runner) afterGC(c *cmd, pre *model) bool {
 		if !reflect.DeepEqual(wk.Lock, gk.Lock) {
 			x.violate(c, "gc:lock-changed", fmt.Sprintf("key %s: before %v after %v", key, wk, gk))
 			return false
+		}
+		if gs, ge := c.effRange(); !inRange(key, gs, ge) {
+			if !reflect.DeepEqual(wk.Writes, gk.Writes) && (len(wk.Writes) > 0 || len(gk.Writes) > 0) {
+				x.violate(c, "gc:outside-range-changed", fmt.Sprintf("key %s is outside the range of the GC request: before %v after %v", key, wk, gk))
+				return false
+			}
+			continue
 		}
 		split := func(ws []dWrite) (above, below []dWrite) {
 			for _, w := range ws {
@@ -907,14 +1015,62 @@ func (x *runner) probeReads(c *cmd, minTS uint64, ref *model) bool {
 						return false
 					}
 				}
-				sl := x.d.exec(&cmd{op: opScanLock, txn: -1, ts: ts})
-				x.evals++
-				wl := ref.scanLock("", "", ts)
-				if !reflect.DeepEqual(wl, sl.locks) && (len(wl) > 0 || len(sl.locks) > 0) {
-					x.violate(c, "read:scan-lock", fmt.Sprintf("afterwards ScanLock(maxTS=%d) returns %v, the reference model has %v", ts, sl.locks, wl))
+				if !x.lockTable(c, ts, ref, "read:scan-lock") {
 					return false
 				}
 			}
+		}
+	}
+	return true
+}
+
+// checkScanLock: the locks of the (region's) range at or below max_version, in key order, with their details.
+// The limit is not fixed by the statement: the full list of the range or its first `limit` entries are accepted.
+func (x *runner) checkScanLock(after, q *cmd, res result, ref *model, kind string) bool {
+	rs, re := q.effRange()
+	want := ref.scanLock(rs, re, q.ts)
+	x.evals++
+	ok := sameLocks(want, res.locks, res.lockDetails)
+	if !ok && q.limit > 0 && len(want) > q.limit {
+		ok = sameLocks(want[:q.limit], res.locks, res.lockDetails)
+	}
+	if !ok {
+		what := "locks"
+		if len(res.locks) > 0 && len(res.locks) <= len(want) && (len(res.locks) == len(want) || len(res.locks) == q.limit) {
+			same := true
+			for i := range res.locks {
+				if !sameLock(want[i], res.locks[i], false) {
+					same = false
+				}
+			}
+			if same {
+				what = "lock-details" // the right locks, wrong type / ttl / for_update_ts / min_commit_ts / txn_size
+			}
+		}
+		msg := fmt.Sprintf("returns %+v, the reference model has %+v", res.locks, want)
+		if after != q {
+			msg = "afterwards " + q.String() + " " + msg
+		}
+		x.violate(after, kind+":"+what, msg)
+		return false
+	}
+	if res.lockDetails && len(res.locks) > 0 {
+		x.counters["scanlock_details_checked"] += len(res.locks)
+	}
+	return true
+}
+
+// lockTable: the full lock table through ScanLock (every region at the RPC levels).
+func (x *runner) lockTable(after *cmd, ts uint64, ref *model, kind string) bool {
+	n := x.d.nregions()
+	if n == 0 {
+		n = 1
+	}
+	for rg := 0; rg < n; rg++ {
+		q := &cmd{op: opScanLock, txn: -1, ts: ts, region: rg}
+		x.prepare(q)
+		if !x.checkScanLock(after, q, x.d.exec(q), ref, kind) {
+			return false
 		}
 	}
 	return true
@@ -983,8 +1139,16 @@ func (w *world) txnCmd(op opKind, t *txnDesc, keys []string) *cmd {
 }
 
 // exhaustive alphabet over two keys and the world's transactions.
-func (w *world) alphabet(large bool) []*cmd {
+// regs: the regions (indices) region-scoped commands are sent to — one copy of the command per region.
+func (w *world) alphabet(large bool, regs []int) []*cmd {
 	var out []*cmd
+	perRegion := func(c *cmd) {
+		for _, rg := range regs {
+			cp := *c
+			cp.region = rg
+			out = append(out, &cp)
+		}
+	}
 	lo, hi := w.extras[0], w.extras[len(w.extras)-1]
 	mid := w.extras[len(w.extras)/2]
 	for _, t := range w.txns {
@@ -1015,10 +1179,11 @@ func (w *world) alphabet(large bool) []*cmd {
 				out = append(out, cl)
 			}
 		}
-		if t.pess && !large {
-			pr := w.txnCmd(opPRollback, t, w.keys)
+		if t.pess {
+			// without keys: the txn's pessimistic locks of the whole region
+			pr := w.txnCmd(opPRollback, t, nil)
 			pr.fts = t.fts[0]
-			out = append(out, pr)
+			perRegion(pr)
 		}
 		other := w.txns[(t.idx+1)%len(w.txns)]
 		c1 := w.txnCmd(opCheckTxn, t, []string{t.primary})
@@ -1037,12 +1202,14 @@ func (w *world) alphabet(large bool) []*cmd {
 		}
 		rc := w.txnCmd(opResolve, t, nil)
 		rc.cts = t.cts
-		out = append(out, rc, w.txnCmd(opResolve, t, nil))
+		perRegion(rc)
+		perRegion(w.txnCmd(opResolve, t, nil))
 	}
 	if len(w.txns) >= 2 {
-		out = append(out, &cmd{op: opBatchResolve, txn: -1, infos: map[uint64]uint64{w.txns[0].sts: w.txns[0].cts, w.txns[1].sts: 0}})
+		perRegion(&cmd{op: opBatchResolve, txn: -1, infos: map[uint64]uint64{w.txns[0].sts: w.txns[0].cts, w.txns[1].sts: 0}})
 	}
-	out = append(out, &cmd{op: opGC, txn: -1, sp: mid}, &cmd{op: opGC, txn: -1, sp: hi})
+	perRegion(&cmd{op: opGC, txn: -1, sp: mid})
+	perRegion(&cmd{op: opGC, txn: -1, sp: hi})
 	// a safe point exactly at a start ts: "refuses over a lock AT or below the safe point"
 	last := w.txns[0]
 	for _, t := range w.txns {
@@ -1050,7 +1217,23 @@ func (w *world) alphabet(large bool) []*cmd {
 			last = t
 		}
 	}
-	out = append(out, &cmd{op: opGC, txn: -1, sp: last.sts})
+	perRegion(&cmd{op: opGC, txn: -1, sp: last.sts})
+	return out
+}
+
+// keyRegions: the regions of the driver that hold keys of the world ([0] without regions).
+func (w *world) keyRegions(d driver) []int {
+	if d.nregions() == 0 {
+		return []int{0}
+	}
+	seen := map[int]bool{}
+	var out []int
+	for _, k := range w.keys {
+		if rg := d.regionOf(k); !seen[rg] {
+			seen[rg] = true
+			out = append(out, rg)
+		}
+	}
 	return out
 }
 
@@ -1059,6 +1242,23 @@ func (w *world) randomCmd(rng *rand.Rand, m *model) *cmd {
 	t := w.txns[rng.Intn(len(w.txns))]
 	anyTS := func() uint64 { return w.allTS[rng.Intn(len(w.allTS))] }
 	extra := func() uint64 { return w.extras[rng.Intn(len(w.extras))] }
+	// region-scoped commands: a region (RPC levels) or a raw range between keys (store level)
+	scoped := func(c *cmd) *cmd {
+		c.region = rng.Intn(12)
+		if rng.Intn(2) == 0 {
+			c.start = w.keys[rng.Intn(len(w.keys))]
+		}
+		if rng.Intn(2) == 0 {
+			c.end = w.keys[rng.Intn(len(w.keys))]
+			if rng.Intn(2) == 0 {
+				c.end += "\x00"
+			}
+		}
+		if c.end != "" && c.end <= c.start {
+			c.start = ""
+		}
+		return c
+	}
 	someKeys := func() []string {
 		n := 1
 		if t.multiKey && rng.Intn(3) == 0 {
@@ -1106,6 +1306,10 @@ func (w *world) randomCmd(rng *rand.Rand, m *model) *cmd {
 		}
 		c := w.txnCmd(opPRollback, t, someKeys())
 		c.fts = t.fts[rng.Intn(len(t.fts))]
+		if rng.Intn(2) == 0 {
+			c.keys = nil // the txn's pessimistic locks of a whole region / range
+			scoped(c)
+		}
 		return c
 	case x < 50:
 		c := w.txnCmd(opCommit, t, someKeys())
@@ -1149,7 +1353,7 @@ func (w *world) randomCmd(rng *rand.Rand, m *model) *cmd {
 		case 1:
 			c.cts = t.cts2
 		}
-		return c
+		return scoped(c)
 	case x < 90:
 		c := &cmd{op: opBatchResolve, txn: -1, infos: map[uint64]uint64{}}
 		for _, u := range w.txns {
@@ -1163,14 +1367,18 @@ func (w *world) randomCmd(rng *rand.Rand, m *model) *cmd {
 		if len(c.infos) == 0 {
 			c.infos[t.sts] = 0
 		}
-		return c
+		return scoped(c)
 	case x < 93:
 		if rng.Intn(3) == 0 {
-			return &cmd{op: opGC, txn: -1, sp: anyTS()} // also exactly at a start / commit ts
+			return scoped(&cmd{op: opGC, txn: -1, sp: anyTS()}) // also exactly at a start / commit ts
 		}
-		return &cmd{op: opGC, txn: -1, sp: extra()}
+		return scoped(&cmd{op: opGC, txn: -1, sp: extra()})
 	case x < 95:
-		return &cmd{op: opScanLock, txn: -1, ts: anyTS()}
+		c := scoped(&cmd{op: opScanLock, txn: -1, ts: anyTS()})
+		if rng.Intn(2) == 0 {
+			c.limit = 1 + rng.Intn(3)
+		}
+		return c
 	case x < 97:
 		return &cmd{op: opGet, txn: -1, keys: someKeys()[:1], ts: anyTS(), rc: rng.Intn(4) == 0}
 	case x < 98:
@@ -1208,7 +1416,7 @@ func (x *runner) latePrewrites() {
 			} else {
 				c = x.w.prewrite(t, []string{k}, 0, 0)
 			}
-			if x.step(c, false, false) {
+			if x.run(c, false, false, false) {
 				x.counters["late_prewrites_rejected"]++
 			}
 		}
@@ -1217,16 +1425,19 @@ func (x *runner) latePrewrites() {
 
 // ---------------------------------------------------------------- tests
 
-func c12Levels() []func() driver {
-	return []func() driver{func() driver { return newStoreDriver() }, func() driver { return newRPCDriver() }}
+// levels: MVCCStore methods; RPC with one region; RPC with >= 3 regions whose borders are keys of the pool.
+func c12Levels(splits ...string) []func() driver {
+	return []func() driver{func() driver { return newStoreDriver() }, func() driver { return newRPCDriver() },
+		func() driver { return newRPCDriver(splits...) }}
 }
 
-const c12Rule = "reference Percolator model vs MVCCLevelDB, at the MVCCStore method level (store) and through RPCClient.SendRequest/kvHandler (rpc); " +
+const c12Rule = "reference Percolator model vs MVCCLevelDB, at the MVCCStore method level (store) and through RPCClient.SendRequest/kvHandler with one region (rpc) and with 3 regions whose borders are keys of the pool (rpc-mr: key requests go to the key's region, ResolveLock / ResolveLock(TxnInfos) / GC / ScanLock(start,end,limit) / PessimisticRollback-without-keys to one region, scans walk the regions); " +
 	"evaluations = commands executed + per-key dump comparisons + read probes; distinct = distinct reference-model states (all locks incl. ttl/forUpdateTS/minCommitTS and all write records of all keys) reached, per level"
 
 func c12Floors(r *vrep.Report) {
 	for _, f := range []string{"err_locked", "err_write-conflict", "prewrite_ok", "plock_ok", "rollback_markers_checked", "reads_blocked_by_lock",
-		"gc_ok", "gc_refused", "late_prewrites_rejected", "repeats_checked", "status_TTLExpireRollback", "status_LockNotExistRollback", "status_MinCommitTSPushed"} {
+		"gc_ok", "gc_refused", "late_prewrites_rejected", "repeats_checked", "status_TTLExpireRollback", "status_LockNotExistRollback", "status_MinCommitTSPushed",
+		"prollback_no_keys", "scanlock_details_checked"} {
 		r.Floor(f, 1)
 	}
 }
@@ -1269,24 +1480,31 @@ func TestVerifC12Exhaustive(t *testing.T) {
 		depth  int
 	}
 	var jobs []job
-	// quick: depth 3, 4 timestamp orders.  thorough: depth 4 for the first 2 orders, depth 3 for all 10,
-	// and depth 3 over the large alphabet for the first 3.
-	for _, mk := range c12Levels() {
+	// quick: depth 3; 4 timestamp orders at the store level, 2 at each RPC level.
+	// thorough: all 10 orders at depth 3, depth 4 for the first 2 (store) / 1 (RPC levels), and depth 3 over the
+	// large alphabet for the first 3 / 2.
+	for lv, mk := range c12Levels("a", "b") {
+		probe := mk()
 		for li, lay := range c12Layouts() {
+			if !vrep.Thorough() && lv > 0 && li >= 2 {
+				continue
+			}
 			w := c12ExhWorld(lay)
+			regs := w.keyRegions(probe)
 			depth := 3
-			if vrep.Thorough() && li < 2 {
+			if vrep.Thorough() && (li < 1 || (lv == 0 && li < 2)) {
 				depth = 4
 			}
-			for i := range w.alphabet(false) {
+			for i := range w.alphabet(false, regs) {
 				jobs = append(jobs, job{mk, lay, i, false, depth})
 			}
-			if vrep.Thorough() && li < 3 {
-				for i := range w.alphabet(true) {
+			if vrep.Thorough() && (li < 2 || (lv == 0 && li < 3)) {
+				for i := range w.alphabet(true, regs) {
 					jobs = append(jobs, job{mk, lay, i, true, 3})
 				}
 			}
 		}
+		probe.close()
 	}
 	// longest jobs first
 	sort.SliceStable(jobs, func(i, j int) bool { return jobs[i].depth > jobs[j].depth })
@@ -1314,7 +1532,7 @@ func TestVerifC12Exhaustive(t *testing.T) {
 					}
 					w := c12ExhWorld(j.layout)
 					probed := map[string]struct{}{} // per job, so that what is probed does not depend on scheduling
-					c12DFS(r, w, probe, w.alphabet(j.large), []int{j.first}, j.depth, probed)
+					c12DFS(r, w, probe, w.alphabet(j.large, w.keyRegions(probe)), []int{j.first}, j.depth, probed)
 				})
 			}
 		}()
@@ -1324,7 +1542,8 @@ func TestVerifC12Exhaustive(t *testing.T) {
 	}
 	close(ch)
 	wg.Wait()
-	r.Sample(map[string]any{"alphabet_quick": cmdStrings(c12ExhWorld(c12Layouts()[0]).alphabet(false)), "world": c12ExhWorld(c12Layouts()[0]).desc})
+	r.Sample(map[string]any{"alphabet_quick_one_region": cmdStrings(c12ExhWorld(c12Layouts()[0]).alphabet(false, []int{0})), "world": c12ExhWorld(c12Layouts()[0]).desc,
+		"rpc-mr": "regions (-inf,a) [a,b) [b,+inf): region-scoped commands once per region holding a key"})
 }
 
 func cmdStrings(cs []*cmd) []string {
@@ -1402,7 +1621,7 @@ func TestVerifC12Random(t *testing.T) {
 	r := vrep.New("C12", "c12-random", "seeded random command sequences of depth 40 over 4 keys and 4 txns (optimistic/pessimistic mix, random relative order of all start/commit/for-update/current timestamps, multi-key requests, Put/Del/Lock/Insert); "+c12Rule)
 	defer r.Finish(t)
 	c12Floors(r)
-	n := vrep.Pick(1000, 6000)
+	n := vrep.Pick(700, 4000) // per level
 	depth := 40
 	type job struct {
 		mk  func() driver
@@ -1434,11 +1653,8 @@ func TestVerifC12Random(t *testing.T) {
 						if c == nil {
 							break
 						}
-						if !x.step(c, false, rng.Intn(3) == 0 || i == depth-1) {
+						if !x.run(c, false, rng.Intn(3) == 0 || i == depth-1, rng.Intn(3) == 0) {
 							break
-						}
-						if mutating(c.op) && x.lastOK && rng.Intn(3) == 0 {
-							x.repeatCheck(c)
 						}
 					}
 					if !x.failed {
@@ -1460,7 +1676,7 @@ func TestVerifC12Random(t *testing.T) {
 			}
 		}()
 	}
-	for _, mk := range c12Levels() {
+	for _, mk := range c12Levels("b", "d") {
 		for i := 0; i < n; i++ {
 			ch <- job{mk, i}
 		}
